@@ -152,7 +152,7 @@ class TranslatorC(Translator):
                 if arg.size <= self.NATIVE_INT_MAX_SIZE:
                     out = "(%s&%s)" % (out, self._size2mask(arg.size))
                 else:
-                    out = 'bignum_mask(%s, 8)' % (out, 8)
+                    out = 'bignum_mask(%s, 8)' % out
                     out = 'bignum_to_uint64(%s)' % out
                 out = 'parity(%s)' % out
                 return out
